@@ -44,6 +44,10 @@ func newGen(seed uint64, stream uint64) *Gen {
 			g.keys = append(g.keys, plain[i%len(plain)])
 		}
 	}
+	if g.r.IntN(8) == 0 {
+		// two names of one hash block's length that differ in a single bit
+		g.keys = append(g.keys, "0BCDEFGH", "8BCDEFGH")
+	}
 	g.keys = dedup(g.keys)
 	return g
 }
@@ -89,13 +93,13 @@ func (g *Gen) val() string {
 // (a few names are not plain words: format verbs, line breaks, spaces, the empty name)
 func (g *Gen) member() string {
 	if g.chance(10) {
-		return g.pick("m%d", "%", "m\r\n", "", "m 1", "%!s(MISSING)")
+		return g.pick("m%d", "%", "m\r\n", "", "m 1", "%!s(MISSING)", "0BCDEFGH", "8BCDEFGH", "0BCDEFGH", "8BCDEFGH")
 	}
 	return "m" + strconv.Itoa(g.r.IntN(8))
 }
 func (g *Gen) field() string {
 	if g.chance(10) {
-		return g.pick("f%d", "50% off", "%s", "f\r\n1", "", "f%%g")
+		return g.pick("f%d", "50% off", "%s", "f\r\n1", "", "f%%g", "0BCDEFGH", "8BCDEFGH", "0BCDEFGH", "8BCDEFGH")
 	}
 	return "f" + strconv.Itoa(g.r.IntN(6))
 }
